@@ -1435,3 +1435,12 @@ package trzsz
 //@   before send:md5DigestChan assert [C02] wlen[hasher] == got && \
 //@       (forall k int {wlog[hasher][k]} :: 0 <= k && k < got ==> wlog[hasher][k] == src[k])
 //@ end
+
+//@ # The handler of one transfer gives the streams back on every exit path: the session pointer is
+//@ # compare-and-swapped from this handler's transfer to nil before it returns (whatever the transfer
+//@ # did: finished, failed, was cancelled or moved to the background).
+//@ func TrzszFilter.handleTrzsz
+//@   ghostvar cleared bool = false
+//@   after atomic.Pointer.CompareAndSwap[github.com/trzsz/trzsz-go/trzsz.trzszTransfer] set cleared = (p0 == transfer && p1 == nil)
+//@   ensures [C05] cleared
+//@ end
